@@ -96,6 +96,16 @@ def utccmpOracles (a b : List Int) (rhs : List String) : Verdicts :=
      ("C02.later_date_larger_unix_time", !both59 || ((c6 == -1) == decide (ua < ub) && (c6 == 1) == decide (ua > ub)))]
   | _, _, _ => [("C02.answer_shape", false)]
 
+/-- `==` and `partial_cmp` of two zoned date-times built from (u1, ns1) and (u2, ns2): judged on the implementation's
+own answer `eq cmp` (1/0 and -1/0/1; 9 = `None`) — they depend on (Unix time, nanoseconds) only -/
+def dtcmpOracles (u1 ns1 u2 ns2 : Int) (rhs : List String) : Verdicts :=
+  if rhs == ["Err:Construct"] then []
+  else match ints? rhs with
+    | some [e, c] =>
+      [("C14.equality_depends_on_instant_only", e == (if u1 == u2 && ns1 == ns2 then 1 else 0)),
+       ("C14.ordering_is_lexicographic_on_instant", c == cmp3 [u1, ns1] [u2, ns2])]
+    | _ => [("C14.answer_shape", false)]
+
 def utctnOracles (n : Int) (rhs : List String) : Verdicts :=
   let sec := n / 1000000000
   let inRange := decide (MIN_UNIX_TIME ≤ sec ∧ sec ≤ MAX_UNIX_TIME)
